@@ -26,12 +26,15 @@ class Signal:
 
 
 class LoopSpec:
-    def __init__(self, invariant=None, modifies=None, variant=None, body_ensures=None, modifies_kind=None):
+    def __init__(self, invariant=None, modifies=None, variant=None, body_ensures=None, modifies_kind=None,
+                 body_no_raise=False, props=None):
         self.invariant = invariant
         self.modifies = modifies
         self.variant = variant
         self.body_ensures = body_ensures
         self.modifies_kind = modifies_kind     # None (syntactic) | 'none'
+        self.body_no_raise = body_no_raise     # an iteration must not end by an exception
+        self.props = props
 
 
 class P:
@@ -186,6 +189,13 @@ def class_invariant(cls):
 
 
 # ----------------------------------------------------------------------------- spec context
+def mangled_name(qualattr):
+    if "." in qualattr:
+        cls, attr = qualattr.rsplit(".", 1)
+        return mangle(attr, cls.split(".")[-1])
+    return qualattr
+
+
 class Heap:
     """Read access to one heap version (old or new)."""
 
@@ -194,11 +204,8 @@ class Heap:
         self.snap = snap
 
     def f(self, obj, qualattr):
-        name = self.S.mangled(qualattr)
-        arr = self.snap.fields.get(name)
-        if arr is None:
-            arr = z3.Const("F0!%s" % name, ArrIV)
-        return z3.Select(arr, Val.r(obj))
+        name = mangled_name(qualattr)
+        return z3.Select(self.snap.field_arr(name), Val.r(obj))
 
     def llen(self, v):
         return z3.Select(self.snap.llen, Val.r(v))
@@ -246,6 +253,9 @@ class _LiveSnap:
     @property
     def fields(self):
         return self.st.fields
+
+    def field_arr(self, name):
+        return self.st.field_arr(name)
 
     llen = property(lambda s: s.st.llen)
     lel = property(lambda s: s.st.lel)
@@ -311,6 +321,9 @@ class SpecCtx:
         return self.I.st.log[self.log_start:]
 
     def calls(self, label):
+        if self.at_call:
+            raise RuntimeError("contract %s: the call log is only meaningful while the body is verified; "
+                               "log-based clauses belong in exit_check, not in ensures" % self.c.key)
         return [e for e in self.log if e.label == label or e.label.endswith(":" + label)]
 
     # -- sorts
@@ -341,8 +354,8 @@ class SpecCtx:
 
     def pre(self, v, clsname, heap=None):
         """v is a pre-existing object (not allocated by this call) of exact class clsname."""
-        from .core import ALLOC_BASE
-        return z3.And(self.isinst(v, clsname, heap), Val.r(v) > 0, Val.r(v) < ALLOC_BASE)
+        # "already allocated": cannot alias anything allocated later on this path
+        return z3.And(self.isinst(v, clsname, heap), Val.r(v) > 0, Val.r(v) < self.I.st.next_id)
 
     def fresh(self, name, sort):
         return self.I.ctx.fresh(name, sort)
@@ -360,6 +373,11 @@ class SpecCtx:
                 self.I.ctx.assume(self.new.llen(nv) >= 0)
             return v == nv
         return z3.And(self.isinst(v, clsname), Val.r(v) >= ALLOC_BASE)
+
+    def elems(self, listval, p):
+        """Declare the sort of the elements of a list value (used when the code iterates over it)."""
+        self.I.st.ghost.setdefault("elem_sorts", {})[str(z3.simplify(listval))] = p
+        return z3.BoolVal(True)
 
     def enum(self, clsname, member):
         return VRef(self.table.enum_refs[(self.cid(clsname), member)])
